@@ -16,7 +16,7 @@ TEXT = ("Sibling cross-check over every `impl Adapter` of every cargo feature co
         "whole value under length==0 [&& offset==0] and otherwise the slice offset..offset+length. S5: consumers of "
         "listings re-append the same extension constant. Decides the shape of the contract in every backend; does not "
         "decide reopen equality, compression round trips or cross-backend state equality (runtime values)."
-        " S3 (revised): a wrapper hands the delegate's listing on unchanged and maps a key to one backend key; S3d: its read passes through the delegate. S2c: the directory listing reads the store on every call. S6 / S6b: whole-buffer I/O, no truncating adaptor. S7 / S7b: file name / map key is the key itself, no byte-range slicing of the key. S8: SQLite schema creation is IF NOT EXISTS. The Solid backend is excluded by the property and not judged. S9: the directory backend reads through a file opened by the same call and a ranged read is dominated by a seek (no handle / cursor kept between calls).")
+        " S3 (revised): a wrapper hands the delegate's listing on unchanged and maps a key to one backend key; S3d: its read passes through the delegate. S2c: the directory listing reads the store on every call. S6 / S6b: whole-buffer I/O, no truncating adaptor. S7 / S7b: file name / map key is the key itself, no byte-range slicing of the key. S8: SQLite schema creation is IF NOT EXISTS. The Solid backend is excluded by the property and not judged. S9: the directory backend reads through a file opened by the same call and a ranged read is dominated by a seek (no handle / cursor kept between calls). S4d: the slice of a ranged read starts at the offset itself, not at a position computed from it.")
 TECHNIQUE = 'static analysis over rustc MIR: sibling agreement of all Adapter implementations (absence-guarded write effects, suffix filter+strip shape, ranged-read shape, wrapper delegation and codec symmetry)'
 TRUSTED = ["rustc nightly MIR", "std::fs, BTreeMap, rusqlite, reqwest, flate2, brotli behave as documented",
            "SQLite PRIMARY KEY + INSERT OR IGNORE keeps the first row"]
@@ -718,6 +718,14 @@ def check_ranged_read(b, facts, res):
                         t0 = du.operand_term(ops[0], 8)
                         if "offset" in roles_in(t0, m, r):
                             found_start = True
+                            # S4d: the slice starts at the offset itself, not at a position computed from it (offset % BLOCK inside a
+                            # window of "the blocks that hold the sub-object": the window arithmetic is then part of the contract)
+                            ar_ = sorted({x[1] for x in walk(t0) if x[0] == "binop" and x[1].replace("WithOverflow", "").replace("Unchecked", "") in
+                                          ("Rem", "Div", "Sub", "Mul", "BitAnd", "Shr", "Shl")})
+                            if ar_:
+                                res.violation("S4", "%s|slice-start-derived-from-offset" % b.name(),
+                                              "%s::read_object slices its buffer at a position computed from the offset (%s) instead of at the offset: "
+                                              "the bytes returned depend on a window computation over partial contents" % (b.name(), ar_), m.loc(st.line))
                 if rv.kind == "agg" and rv.j.get("variant") == "Start":
                     ops = rv.operands()
                     if ops and "offset" in roles_in(du.operand_term(ops[0], 10), m, r):
